@@ -21,6 +21,7 @@ pub fn opts() -> GenOpts {
     o.cmd_or_words = true;
     o.twins = true;
     o.any = true;
+    o.adjacent_optional_words = true;
     o.usage_fallback = true;
     o.catch = true;
     o.adjacent_cmds = true;
